@@ -299,7 +299,14 @@ impl VM {
                 }
                 OpCode::GetGlobal => {
                     let idx = self.read_u16();
-                    let value = self.globals[idx as usize];
+                    let value = match self.globals.get(idx as usize) {
+                        Some(value) => *value,
+                        None => {
+                            return Err(Error::ReferenceError(
+                                "variabele wordt gebruikt voordat deze een waarde heeft".to_string(),
+                            ))
+                        }
+                    };
                     self.push(value);
                 }
                 OpCode::SetLocal => {
